@@ -131,12 +131,17 @@ def run(prop, tier, seed):
                         fields.insert(rnd.randrange(len(fields) + 1), m + ":" + corpus.ND[ver])
                 withtwins.append((ver, pre + "/".join(fields)))
         items = [{"op": "construct", "ver": ver, "s": esc(s), "json": True} for ver, s in withtwins]
+        nvalid = len(items)
+        # C10/C11 speak about every vector the library *accepts*: near misses are offered too, and whatever is accepted is judged
+        items += [{"op": "construct", "ver": ver, "s": esc(s), "json": True} for s in corpus.near_misses(rnd, 600 if not big else 20000) for ver in "234"]
         ev = record_events(items, work)
-        for e in ev:
-            if e["out"]["cls"] != "ok":
+        for n_, e in enumerate(ev):
+            if e["out"]["cls"] != "ok" and n_ < nvalid:
                 raise MachineryError("generator produced a vector the library rejects: %s" % e["s"])
             for k in ("re_clean", "re_rh", "asm"):
                 e["out"].pop(k, None)
+        c.extra["near_misses_accepted_by_the_library"] = sum(1 for e in ev[nvalid:] if e["out"]["cls"] == "ok")
+        ev = ev[:nvalid] + [e for e in ev[nvalid:] if e["out"]["cls"] == "ok"]
         c.evaluations = 4 * len(ev)
         if prop == "C10":
             # design level: the transcription of the schemas agrees with the jsonschema library on the pinned files
